@@ -676,9 +676,20 @@ def plan_c12(ctx):
         coll = [tg.atom() for _ in range(rng.randint(0, 3))]
         x = 50
         bodies = []
+        lists = i % 3 == 2
+        if lists:
+            # collections of LISTS, the empty list among them (an element like every other)
+            coll = [rng.choice([["list", []], ["list", []], ["list", [["num", 1]]], ["list", [["num", 2], ["num", 1]]],
+                                ["list", [tg.atom()]]]) for _ in range(rng.randint(1, 3))]
         for _ in range(rng.randint(1, 2)):
             r = rng.random()
-            if r < 0.4:
+            if lists:
+                bodies.append(rng.choice([
+                    [["call", "member", [["num", 1], ["var", x]]]],
+                    [["neq", ["var", x], ["list", []]]],
+                    [["conde", [[["eq", ["var", x], ["list", []]]], [["call", "member", [["num", 1], ["var", x]]]], [["succeed"]]]]],
+                    [["call", "append", [["var", x], ["list", [["num", 3]]], ["var", 1]]]]]))
+            elif r < 0.4:
                 bodies.append([["call", "member", [["var", x], gen.small_list(rng, gen.TermGen(rng, [], compounds=False, syms=False, nums=[1, 2, 3]))]]])
             elif r < 0.7:
                 bodies.append([["neq", ["var", x], ["num", rng.randint(1, 3)]]])
@@ -1285,6 +1296,21 @@ def plan_c20(ctx):
         else:
             # the twin would not be faithful: the program is judged against the reference semantics only
             add(ctx, [query(ctx, g + "-c", nv, goals)])
+    # a struct with an OPTIONAL field (Slot(t, Option)): Some(..) against None in either operand order, directly
+    # and through variables, under == and !=
+    for i in range(T(ctx, 150, 3000)):
+        vs = [1, 2, 3]
+        a = lambda: rng.choice([["var", rng.choice(vs)], ["num", rng.randint(1, 2)], ["num", 1]])
+        slot = lambda: ["cmp", "Slot", [a(), rng.choice([["cmp", "None", []], ["cmp", "Some", [a()]], ["cmp", "Some", [a()]]])]]
+        goals = []
+        for _ in range(rng.randint(1, 3)):
+            r = rng.random()
+            l, rr = rng.choice([(slot(), slot()), (["var", rng.choice(vs)], slot()), (slot(), ["var", rng.choice(vs)])])
+            goals.append(["eq" if r < 0.6 else "neq", l, rr])
+        if rng.random() < 0.5:
+            goals.append(["eq", ["var", rng.choice(vs)], ["num", rng.randint(1, 2)]])
+        add(ctx, [{"id": "C20-sl-s%d" % i, "kind": "store", "vars": vs, "k": 0, "ops": goals},
+                  query(ctx, "C20-sl-q%d" % i, 3, goals)])
     # FD labelling through compound fields, and a compound against a list / literal
     for i in range(T(ctx, 250, 5000)):
         nv = rng.randint(2, 3)
